@@ -81,6 +81,15 @@ def gate(h: int, head_above_horizon: bool = False, twin: bool = False, real: boo
             accepted = True
         except Exception:
             accepted = False
+        # the verdict does not depend on how often the block is presented
+        for _ in range(2):
+            try:
+                W.cons.validate_block_in_coinstate(block, pre)
+                again = True
+            except Exception:
+                again = False
+            if again != accepted and not twin:
+                return False
         if twin:
             return not accepted
         if accepted and idb != expected:
@@ -130,6 +139,35 @@ def genesis_gate(nonempty: bool, twin: bool = False, real: bool = False):
         return (not accepted) or idb == expected
 
     return check_genesis_gate, {"idb": expected}
+
+
+def pow_rule(twin: bool = False, real: bool = False):
+    """The real network's blocks stay valid whatever difficulty they were mined at: the proof-of-work comparison accepts an id
+    exactly when it is below the stated target, for every 32-byte id and target (in particular targets easier than the
+    initial one, as in the real chain's first readjustment period, whose checkpointed ids start with 0x01)."""
+    from symlib.world import Env
+    env = Env(real=real)
+    table, mx = _table()
+    easy = [bytes.fromhex(v) for (k, v) in sorted(table.items()) if bytes.fromhex(v)[0] >= 1][:3]
+
+    def check_pow_rule(idb: bytes, target: bytes, which: int) -> bool:
+        """
+        post: _
+        """
+        if len(idb) != 32 or len(target) != 32 or not (0 <= which <= 3):
+            return True
+        if which > 0 and len(easy) >= which:
+            idb = easy[which - 1]            # a real checkpointed id of the easy-target era
+        try:
+            env.cons.validate_proof_of_work(idb, target)
+            ok = True
+        except Exception:
+            ok = False
+        if twin:
+            return not ok
+        return ok == (idb < target)
+
+    return check_pow_rule, {"idb": b"\x00" * 31 + b"\x01", "target": b"\x00" * 31 + b"\x02", "which": 0}
 
 
 def above_horizon(twin: bool = False, real: bool = False):
@@ -269,6 +307,8 @@ def obligations(tier: str, known: List[str]) -> List[Ob]:
         obs.append(Ob("gate[h=0,genesis-shaped candidate,state %s]" % ("holds the real genesis" if ne else "empty"), C_GATE, "genesis_gate",
                       {"nonempty": ne}, timeout=300))
     obs.append(Ob("above-horizon[h=max+1]", C_GATE, "above_horizon", {}, timeout=600))
+    obs.append(Ob("proof-of-work-comparison[every id and target]", C_REAL, "pow_rule", {}, timeout=300))
+    obs.append(twin_of(obs[-1]))
     obs.append(twin_of(obs[-1]))
     obs.append(Ob("table-shape", C_GATE, "table_shape", {}, kind="anchor"))
     obs.append(Ob("recorded-blocks[real-hashes]", C_REAL, "recorded_blocks", {}, kind="anchor", timeout=600))
